@@ -21,6 +21,61 @@ fn flat_ref<G: CurveTag>(kind: u8, n: usize, m: usize) -> Vec<G> {
     v
 }
 
+/// the same consumers on the iterator's own type (a boxed `dyn Iterator` only forwards `next`,
+/// `nth` and `size_hint`, so overrides of `fold` and friends would be bypassed)
+fn concrete_checks<'a, G: CurveTag, I: Iterator<Item = &'a G>>(mk: &dyn Fn() -> I, exp: &[G], n: usize) -> Option<String> {
+    let len = exp.len();
+    if mk().count() != len {
+        return Some(format!("count() is not {}", len));
+    }
+    if mk().last().copied() != exp.last().copied() {
+        return Some("last() is not the final item".into());
+    }
+    if mk().fold(0usize, |a, _| a + 1) != len || mk().map(|_| 1usize).sum::<usize>() != len {
+        return Some(format!("fold / sum do not visit {} items", len));
+    }
+    let mut all: Vec<G> = vec![];
+    mk().for_each(|p| all.push(*p));
+    if all[..] != exp[..] {
+        return Some("for_each does not visit the listing in order".into());
+    }
+    for k in [0usize, 1, n.saturating_sub(1), n, n + 1, 2 * n, len / 2, len.saturating_sub(2)] {
+        let rest = len.saturating_sub(k + 1);
+        let mut it = mk();
+        if it.nth(k).copied() != exp.get(k).copied() {
+            return Some(format!("nth({}) is not item {}", k, k));
+        }
+        let mut seen: Vec<G> = vec![];
+        it.for_each(|p| seen.push(*p));
+        if seen[..] != exp[(k + 1).min(len)..] {
+            return Some(format!("for_each after nth({}) does not visit items {}..", k, k + 1));
+        }
+        let mut it = mk();
+        let _ = it.nth(k);
+        if it.count() != rest {
+            return Some(format!("count() after nth({}) is not {}", k, rest));
+        }
+        let mut it = mk();
+        for _ in 0..k.min(len) {
+            let _ = it.next();
+        }
+        if it.fold(0usize, |a, _| a + 1) != len - k.min(len) {
+            return Some(format!("fold after {} next() calls does not visit the remaining {} items", k, len - k.min(len)));
+        }
+        let mut it = mk().skip(k);
+        let first = it.next().copied();
+        if first != exp.get(k).copied() || it.last().copied() != if k + 1 < len { exp.last().copied() } else { None } {
+            return Some(format!("skip({}) then next() / last() do not give items {} and the final one", k, k));
+        }
+        let st: Vec<G> = mk().step_by(k + 1).copied().collect();
+        let est: Vec<G> = exp.iter().step_by(k + 1).copied().collect();
+        if st != est {
+            return Some(format!("step_by({}) does not list every {}-th item", k + 1, k + 1));
+        }
+    }
+    None
+}
+
 fn check_views<G: CurveTag>(
     gens: &BulletproofGens<G>,
     cap: usize,
@@ -124,6 +179,12 @@ fn check_views<G: CurveTag>(
                     Ok(Some(msg)) => return Err(Failure::new(format!("C12:view-adaptor:{}", name), format!("{}({}, {}): {}", name, n, m, msg), what(format!("{}({},{})", name, n, m)))),
                     Ok(None) => {}
                 }
+            }
+            let conc = guarded(|| if kind == b'G' { concrete_checks::<G, _>(&|| gens.G(*n, *m), &exp, *n) } else { concrete_checks::<G, _>(&|| gens.H(*n, *m), &exp, *n) });
+            match conc {
+                Err(p) => return Err(Failure::new(format!("C12:view-panic:{}", name), format!("{}({}, {}) consumed through its own type panicked: {}", name, n, m, p), what(format!("{}({},{})", name, n, m)))),
+                Ok(Some(msg)) => return Err(Failure::new(format!("C12:view-adaptor:{}", name), format!("{}({}, {}): {}", name, n, m, msg), what(format!("{}({},{})", name, n, m)))),
+                Ok(None) => {}
             }
             let cnt = guarded(|| (mk().count(), mk().last().copied()));
             if let Ok((c, l)) = cnt {
